@@ -5,6 +5,27 @@ sys.path.insert(0, os.path.dirname(os.path.abspath(__file__)))
 import props
 VERIF = os.path.dirname(os.path.dirname(os.path.abspath(__file__)))
 ALL = ["C%02d" % i for i in range(1, 21)]
+
+LEVEL_TEXT = {
+ "C01": "proof: closed forms of both RNEA passes and the d'Alembert form for every tree, single-body Newton-Euler, power invariance, NonlinearEffects = RNEA(0) are theorems about the code-shaped model (all inputs); the last composition with the jet specification is carried per joint type / per step by C06 and end-to-end by the spec monitor on every run",
+ "C02": "proof: RNEA(ABA(tau)) = tau and the M^-1 tau route for every tree-ordered model, every workspace, 1-DoF / 3-DoF / custom blocks, under exactly the non-zero pivots the C++ divides by; Lagrangian solvers by certificate (solver-independent by C03)",
+ "C03": "proof: composite inertias, CRBA entries, symmetry, off-path zeros, RNEA affine in qddot, RNEA unit column = CRBA column, tau = H qddot + N, LTL factorisation and triangular solves for all n (abstract square root)",
+ "C04": "proof: every joint transform is the documented pose, X_base is the pose composition along the path, rotations stay rotations, base<->body conversions inverse for movable and fixed ids; spec monitor on every run",
+ "C05": "proof: Jacobian columns as path products, G qdot = point / body velocity (6-D, fixed bodies), agreement of the three Jacobians, off-path entries untouched (and the necessity of zero initialisation)",
+ "C06": "proof: per joint kind S qdot and c_J are the first / second jet of the joint pose; chain rule for composed poses; the code's v, a after (selective) updates are the jets of the body pose; point velocity / acceleration routines",
+ "C07": "proof: joint-level and whole-model equivalences (Euler orders / translation vs revolute chains through massless bodies, floating base, fixed joint vs merged inertia with a congruence lemma over all routines, custom vs built-in, spherical vs Euler by jets, relabelling for any tree isomorphism); CRBA/ABA lifts for chain-vs-3-DoF by twin monitor",
+ "C08": "proof: uniqueness of KKT solutions, soundness of range-space / null-space block algebra, sign conventions, agreement of methods (linear algebra over any field / ordered field); the implementation's outputs are certified against the relations with gamma from the jet specification; loop-constraint classes D5a/b/c are known findings",
+ "C09": "proof: row layout invariant for every sequence of additions, contact rows / errors / gamma as the documented quantities and as derivatives (jets), loops: exact gap formulas and exact conditions for consistency, Baumgarte; counterexamples for the recorded defect classes",
+ "C10": "proof: energy balance and non-increase, uniqueness, feasible-unchanged, sign conventions for any solution of the impulse equations; certified on the outputs of the three routines",
+ "C11": "proof: selection matrices partition, soundness of exact and relaxed operators for any solution of the projected system, full-actuation criterion as a rank statement; certified on outputs; the numerical rank decision compared with the exact rank where it has a margin",
+ "C12": "proof: CoM recursion, mass moment, kinetic energy (Koenig), potential energy, ZMP on plane / no tangential moment / uniqueness, balance-addon transfer formulas and foot-placement geometry; definitions on jets monitored on every run",
+ "C13": "proof: the invariant WSFixed is established by construction and poisoning, preserved by 23 routines, and implies workspace-independent results for 19 routines; documented flag-cleared pairs; counterexamples show each side condition is needed",
+ "C14": "proof: well-formedness invariant by induction over every operation sequence, rejected additions leave the model unchanged, id / name / coordinate-range facts",
+ "C15": "proof: Join = rigid union for every relative pose, Separate inverts Join incl. massless remainder, setters = rebuilding for movable / custom-joint / fixed bodies",
+ "C16": "proof: every compact operator equals its 6x6 definition, group laws, inertia operators, cross-product duality, quaternion <-> matrix laws incl. fromMatrix for every rotation; the formulas are regenerated from the headers on every run (translator tier)",
+ "C18": "proof: Bezier value / derivative / chain-rule formulas (generated from the C++) equal their formal definitions for orders 1-6, corner construction gives C2 joins, convex hull and monotone control polygon, shift / scale / mirror laws, torque <-> activation inversion; factories, root finder and data sets by correspondence and certificate",
+ "C19": "proof: the loader's table interpretation is a Lean model proved equal to the fold of API calls for every description, history-free with a per-load name map, ids / names / parents / defaults / constraint rows in table order; the real loader is compared with that model on every run (the Lua interpreter is not modelled)",
+}
 checks = []
 for pid in ALL:
     if pid not in props.PROPS:
@@ -19,7 +40,7 @@ for pid in ALL:
         "engine": "lean4-model+correspondence",
         "level_claimed": {
             "category": P.get("level", "proof"),
-            "text": P.get("level_text", ""),
+            "text": P.get("level_text") or LEVEL_TEXT.get(pid, ""),
             "design_ref": "DESIGN.md §6 " + pid,
         },
         "level_note": P.get("level_note", "Lean 4.33 kernel; axioms propext, Classical.choice, Quot.sound; model tied to /repo by the translator (straight-line formulas) and by the exact-rational vs double correspondence run (tol 1e-8*scale); floating-point rounding, libm, Eigen solvers modelled not verified"),
